@@ -27,11 +27,14 @@ RECURSIVE TokSeq(_)
 TokSeq(k) == IF k = 0 THEN <<>> ELSE TokSeq((k - 1) \div NT) \o Tokens[((k - 1) % NT) + 1]
 
 Mode == Env("MODE", "tok")
-LineAlpha == IF Mode = "lit" THEN <<97, 65, 98, 233, 95, 32>> ELSE <<97, 98, 65, 233, 32>>
+(* ALPHA = 2: characters that differ from one another in bit 5 only without being a letter pair (@ `, _ DEL, the second
+   bytes of e-acute and E-acute), for case folding *)
+LineAlpha == IF Mode = "lit" THEN (IF EnvN("ALPHA", 1) = 2 THEN <<96, 64, 201, 233, 127, 95>> ELSE <<97, 65, 98, 233, 95, 32>>)
+             ELSE <<97, 98, 65, 233, 32>>
 NA == Len(LineAlpha)
 
 (* C12: anchors x literal.  k = 16 * literal index + anchor mask *)
-LitAlpha == <<97, 65, 98, 233, 95>>
+LitAlpha == IF EnvN("ALPHA", 1) = 2 THEN <<64, 96, 233, 95, 201>> ELSE <<97, 65, 98, 233, 95>>
 RECURSIVE LitOf(_)
 LitOf(k) == IF k = 0 THEN <<>> ELSE LitOf((k - 1) \div 5) \o <<LitAlpha[((k - 1) % 5) + 1]>>
 LitPat(k) == LET m == k % 16  l == LitOf(k \div 16) IN
